@@ -198,6 +198,24 @@ void h_copy_independent(void){
   REACHED();
 }
 
+/* copy-construct, then grow the COPY: sizes/contents of both objects as std::vector, every access inside the copy's own heap block, nothing leaked */
+void h_copy_then_grow(void){
+#ifdef NSRC      /* sizes as per-query constants (symbolic sizes 0..5 / 0..3 exhaust 8.8 GB: every reallocation pattern in one formula) */
+  u32 src[8], more[4], oc[OUTCAP], os[OUTCAP]; u64 n = in_u64(NSRC, NSRC), m = in_u64(NPUSH, NPUSH);
+#else
+  u32 src[8], more[4], oc[OUTCAP], os[OUTCAP]; u64 n = in_u64(0, 5), m = in_u64(0, 3);
+#endif
+  for (int i = 0; i < 8; i++) src[i] = in_any32(); for (int i = 0; i < 4; i++) more[i] = in_any32();
+  for (int i = 0; i < OUTCAP; i++){ oc[i] = 0xdeadbeef; os[i] = 0xdeadbeef; }
+  pool_begin();
+  u64 r = KS(k_vector_copy_grow)(src, n, more, m, oc, os, OUTCAP); OBS(r);
+  pool_end();
+  ASSERT(r == n + m, "size of the grown copy");
+  for (u64 i = 0; i < 8; i++) if (i < n + m) ASSERT(oc[i] == (i < n ? src[i] : more[i - n]), "grown copy holds the source's elements followed by the pushed ones");
+  for (u64 i = 0; i < 8; i++) if (i < n) ASSERT(os[i] == src[i], "the source is untouched by pushes into its copy");
+  REACHED();
+}
+
 /* utl::array<int,4> */
 void h_array(void){
   u8 ops[K], tgt[K]; u64 n[K]; u32 v[K], m[2][4], o0[4] = {0}, o1[4] = {0};
